@@ -5,11 +5,13 @@ package syncprops
 import (
 	"context"
 	"encoding/hex"
+	"errors"
 	"fmt"
 	"strings"
 	"testing"
 	"time"
 
+	header "github.com/celestiaorg/go-header"
 	hsync "github.com/celestiaorg/go-header/sync"
 
 	"verifharness/mon"
@@ -132,7 +134,7 @@ func TestC16(t *testing.T) {
 func c16Run(c *mon.Case, p c16P) {
 	c.Bubble(func() {
 		vh.SetTrustRange(0)
-		future := 40
+		future := 600 // 1 h of future headers: enough for every script (each settle costs 10-20s of virtual time)
 		times := c16Times(p.Chain, p.Net, future, p.StoreHi, time.Duration(p.AgeS)*time.Second, uint64(p.Net*131+p.StoreHi))
 		chain := vh.NewChain("sy", times)
 		epoch := time.Now()
@@ -256,9 +258,14 @@ func c16Run(c *mon.Case, p c16P) {
 				time.Sleep(c16Spacing)
 				w.g.setTip(tipNow())
 				ctx, cancel := context.WithTimeout(context.Background(), time.Minute)
-				err := w.sub.deliver(ctx, chain.At(tipNow()))
+				nh := chain.At(tipNow())
+				known := false
+				if sh0, e0 := w.syn.Head(ctx); e0 == nil && sh0.Height() >= nh.Height() {
+					known = true // nothing newer than what the Syncer already has: not a valid *new* head
+				}
+				err := w.sub.deliver(ctx, nh)
 				cancel()
-				if err != nil {
+				if err != nil && !known && !errors.Is(err, header.ErrKnownHeader) {
 					c.Violation("gossip-refused/"+shape, fmt.Sprintf("valid adjacent network head %d refused: %v", tipNow(), err), nil)
 				}
 				w.settle()
